@@ -1,6 +1,7 @@
 package vc
 
 import (
+	"regexp"
 	"crypto/sha256"
 	"fmt"
 	"sort"
@@ -41,6 +42,101 @@ func SSAHash(fn *ssa.Function) string {
 	fn.WriteTo(&sb)
 	h := sha256.Sum256([]byte(sb.String()))
 	return fmt.Sprintf("%x", h[:8])
+}
+
+var (
+	shapePhiRe   = regexp.MustCompile(` #[A-Za-z_][A-Za-z0-9_.$]*$`)
+	shapeAllocRe = regexp.MustCompile(` \([A-Za-z_][A-Za-z0-9_.$ ]*\)$`)
+)
+
+// ShapeHash is a hash of the function's SSA with every source-level name of a local erased (debug
+// references dropped, parameters numbered, phi / alloc comments removed), together with the shapes of the
+// module functions it calls statically (two levels). Two trees with the same shape hash run the same code:
+// they can differ only in the names of locals, comments and layout.
+func ShapeHash(fn *ssa.Function) string {
+	seen := map[*ssa.Function]bool{}
+	var sb strings.Builder
+	var walk func(f *ssa.Function, depth int)
+	walk = func(f *ssa.Function, depth int) {
+		if f == nil || seen[f] || len(f.Blocks) == 0 {
+			return
+		}
+		seen[f] = true
+		params := map[string]string{}
+		for i, p := range f.Params {
+			params[p.Name()] = fmt.Sprintf("p%d", i)
+		}
+		for i, p := range f.FreeVars {
+			params[p.Name()] = fmt.Sprintf("fv%d", i)
+		}
+		fmt.Fprintf(&sb, "func %s\n", f.Signature.String())
+		var callees []*ssa.Function
+		for _, b := range f.Blocks {
+			fmt.Fprintf(&sb, "b%d:\n", b.Index)
+			for _, in := range b.Instrs {
+				if _, ok := in.(*ssa.DebugRef); ok {
+					continue
+				}
+				line := in.String()
+				line = shapePhiRe.ReplaceAllString(line, "")
+				line = shapeAllocRe.ReplaceAllString(line, "")
+				if len(params) > 0 {
+					toks := strings.FieldsFunc(line, func(r rune) bool { return r == ' ' || r == ',' || r == '(' || r == ')' || r == '[' || r == ']' || r == ':' })
+					_ = toks
+					for name, repl := range params {
+						line = replaceWord(line, name, repl)
+					}
+				}
+				if v, ok := in.(ssa.Value); ok {
+					sb.WriteString(v.Name() + " = ")
+				}
+				sb.WriteString(line + "\n")
+				if c, ok := in.(ssa.CallInstruction); ok {
+					if cal := c.Common().StaticCallee(); cal != nil && cal.Pkg != nil && cal.Pkg.Pkg != nil && strings.HasPrefix(cal.Pkg.Pkg.Path(), ModPath) {
+						callees = append(callees, cal)
+					}
+				}
+			}
+		}
+		for _, an := range f.AnonFuncs {
+			walk(an, depth)
+		}
+		if depth < 2 {
+			for _, cal := range callees {
+				walk(cal, depth+1)
+			}
+		}
+	}
+	walk(fn, 0)
+	h := sha256.Sum256([]byte(sb.String()))
+	return fmt.Sprintf("%x", h[:8])
+}
+
+func replaceWord(s, w, repl string) string {
+	if !strings.Contains(s, w) {
+		return s
+	}
+	var sb strings.Builder
+	i := 0
+	isId := func(c byte) bool { return c == '_' || c == '$' || c == '.' || (c >= '0' && c <= '9') || (c >= 'a' && c <= 'z') || (c >= 'A' && c <= 'Z') }
+	for i < len(s) {
+		j := strings.Index(s[i:], w)
+		if j < 0 {
+			sb.WriteString(s[i:])
+			break
+		}
+		j += i
+		before := j == 0 || !isId(s[j-1])
+		after := j+len(w) >= len(s) || !isId(s[j+len(w)])
+		sb.WriteString(s[i:j])
+		if before && after {
+			sb.WriteString(repl)
+		} else {
+			sb.WriteString(w)
+		}
+		i = j + len(w)
+	}
+	return sb.String()
 }
 
 // script assembles an incremental script for the given obligations.
@@ -128,7 +224,7 @@ func firstLines(s string, n int) string {
 // VerifyFunc: Houdini over the automatic candidates, then all obligations.
 func VerifyFunc(p *Prog, fn *ssa.Function, opt Options, so *SolveOpts) *FuncResult {
 	t0 := time.Now()
-	res := &FuncResult{Fn: FuncName(fn), SSAHash: SSAHash(fn)}
+	res := &FuncResult{Fn: FuncName(fn), SSAHash: ShapeHash(fn)}
 	disabled := map[string]bool{}
 	for k, v := range opt.Disabled {
 		disabled[k] = v
